@@ -47,6 +47,10 @@ pub struct Case {
     /// client_disconnect_timeout (0 = disabled)
     #[serde(default)]
     pub disc_ms: u32,
+    /// bytes that are not a request head, sent right after the valid pipeline (same segment as its
+    /// end): the server owes every response to the valid requests and then a complete 400
+    #[serde(default)]
+    pub garbage_tail: Option<u8>,
 }
 
 fn wsched() -> impl Strategy<Value = WSched> {
@@ -104,8 +108,102 @@ fn case_strategy(faults: bool) -> impl Strategy<Value = Case> {
         },
         prop_oneof![2 => Just(0u32), 1 => Just(300u32), 1 => Just(1000u32)],
     )
-        .prop_map(|(base, w, fault, disc_ms)| Case { base, w, fault, disc_ms })
+        .prop_map(|(base, w, fault, disc_ms)| Case { base, w, fault, disc_ms, garbage_tail: None })
 }
+
+/// The last request is a chunked upload larger than payload buffer + read buffer (32 KiB +
+/// 128 KiB) whose handler keeps the payload unread (or reads a little, or drops it at once) for
+/// long enough that both buffers fill and reading stops, then answers: the dropped body has to be
+/// drained from the socket, which takes a wake-up nobody but the dispatcher can provide.
+fn upload_case_strategy() -> impl Strategy<Value = Case> {
+    (
+        c02::case_strategy_with(3000),
+        wsched(),
+        proptest::collection::vec(prop_oneof![1 => 1u32..3000, 3 => 20_000u32..70_000], 4..9),
+        170_000u32..420_000,
+        prop_oneof![3 => Just(ReadProg::Hold), 1 => Just(ReadProg::DropNow), 1 => (1u32..50_000).prop_map(ReadProg::UpTo)],
+        prop_oneof![1 => Just(0u16), 4 => 5u16..120],
+        prop_oneof![2 => Just(0u32), 1 => Just(300u32)],
+        any::<u64>(),
+        proptest::bool::weighted(0.3),
+    )
+        .prop_map(|(mut base, mut w, lens, total, read, delay, disc_ms, seed, benign)| {
+            if base.ka == crate::h1engine::KaCfg::Disabled {
+                base.ka = crate::h1engine::KaCfg::Timeout(5000);
+            }
+            base.expect_reject = false;
+            let last = base.reqs.len() - 1;
+            // chunk sizes cycle through `lens` until `total` bytes are reached
+            let mut chunks = vec![];
+            let mut sum = 0u32;
+            let mut i = 0;
+            while sum < total {
+                let len = lens[i % lens.len()].min(total - sum).max(1);
+                chunks.push(crate::httpwire::ChunkSpec { len, ext: None, upper: i % 2 == 0, zeros: 0, lws: 0 });
+                sum += len;
+                i += 1;
+            }
+            {
+                let r = &mut base.reqs[last];
+                r.method = "POST".into();
+                r.version = 1;
+                r.expect = false;
+                r.conn = crate::httpwire::ConnOpt::None;
+                r.framing = crate::httpwire::Framing::Chunked { chunks, last_ext: None, te_case: 0 };
+                r.body_seed = seed;
+                r.headers.retain(|(n, _)| !n.eq_ignore_ascii_case("content-length") && !n.eq_ignore_ascii_case("transfer-encoding"));
+                let p = &mut base.progs[last];
+                p.read = read;
+                p.pre_delay_ms = delay;
+                p.read_pace_ms = 0;
+                p.fail = false;
+                p.resp.force_close = false;
+                if matches!(p.resp.body.kind, BodyKind::Echo) {
+                    p.resp.body.kind = BodyKind::Bytes;
+                }
+                p.resp.body.fail_at_end = false;
+            }
+            base.seg = crate::gen::SegSpec::whole();
+            base.wait_continue = false;
+            // the peer waits for the server's close (keep-alive expiry) before it half-closes
+            base.eof_after = false;
+            c02::normalize(&mut base);
+            if benign {
+                w = WSched { init_credit: 0, drip: vec![], max_write: vec![], flush: vec![], budget: 0 };
+            }
+            Case { base, w, fault: Fault::None, disc_ms, garbage_tail: None }
+        })
+}
+
+/// Valid pipeline followed by a malformed head, against the adversarial socket.
+fn garbage_case_strategy() -> impl Strategy<Value = Case> {
+    (c02::case_strategy_with(20_000), wsched(), any::<u8>(), prop_oneof![2 => Just(0u32), 1 => Just(300u32)]).prop_map(|(mut base, w, g, disc_ms)| {
+        if base.ka == crate::h1engine::KaCfg::Disabled {
+            base.ka = crate::h1engine::KaCfg::Timeout(5000);
+        }
+        base.expect_reject = false;
+        base.wait_continue = false;
+        base.eof_after = false;
+        for r in base.reqs.iter_mut() {
+            r.expect = false;
+        }
+        // a plain last request, so that every generated one is in a non-closing position
+        base.reqs.push(crate::httpwire::ReqSpec::get("/last"));
+        base.progs.push(crate::h1engine::HandlerProg::simple());
+        base.arrival.push(0);
+        c02::normalize(&mut base);
+        Case { base, w, fault: Fault::None, disc_ms, garbage_tail: Some(g) }
+    })
+}
+
+const GARBAGE: [&[u8]; 6] = [
+    b"\x00\x01garbage\r\n\r\n",
+    b"GET / HTTP/9.9\r\n\r\n",
+    b"GET /a b c HTTP/1.1\r\n\r\n",
+    b"POST /x HTTP/1.1\r\nContent-Length: 5\r\nContent-Length: 6\r\n\r\nhello!",
+    b"POST /x HTTP/1.1\r\nTransfer-Encoding: chunked\r\nContent-Length: 3\r\n\r\n3\r\nabc\r\n0\r\n\r\n",
+    b"G\xffT / HTTP/1.1\r\nHost: x\r\n\r\n",
+];
 
 /// upper bound (virtual ms) on the handler-side delays of the requests that were dispatched
 fn program_delay_ms(case: &c02::Case, out: &Outcome) -> u64 {
@@ -174,6 +272,10 @@ pub fn run_case(cfg: &RunCfg, case: &Case) -> Verdict {
     let base = &case.base;
     let strict = cfg.strict;
     let halfclose_listed = !strict && cfg.kf.active("C01", "half-close-discards-buffered-body");
+
+    if let Some(g) = case.garbage_tail {
+        return run_garbage(cfg, case, g, halfclose_listed);
+    }
 
     if matches!(case.fault, Fault::None | Fault::EofAfterResponses(_)) {
         // ---- schedules: the full C02 oracle on the adversarial socket, plus progress
@@ -319,6 +421,76 @@ pub fn run_case(cfg: &RunCfg, case: &Case) -> Verdict {
     v
 }
 
+/// Valid pipeline + malformed head on the adversarial socket: every response to the valid
+/// requests and then a complete 4xx must reach the wire before the connection ends.
+fn run_garbage(cfg: &RunCfg, case: &Case, g: u8, halfclose_listed: bool) -> Verdict {
+    let base = &case.base;
+    let n = base.reqs.len();
+    for i in 0..n {
+        if !cfg.strict && c02_known(cfg, base, i) {
+            return Verdict::excluded("304-with-body-writes-body-bytes");
+        }
+    }
+    let (mut sc, _starts) = c02::build_scenario(base, None, halfclose_listed);
+    sc.wsched = Some(case.w.clone());
+    sc.cfg.disc_timeout_ms = case.disc_ms;
+    let tail = GARBAGE[g as usize % GARBAGE.len()];
+    let old_len = sc.input.len();
+    sc.input.extend_from_slice(tail);
+    let new_len = sc.input.len();
+    for op in sc.peer_ops.iter_mut().rev() {
+        if let PeerOp::Send(_, b) = op {
+            if *b == old_len {
+                *b = new_len;
+            }
+            break;
+        }
+    }
+    let out = crate::h1engine::run(sc);
+    let mut v = classify(Verdict::ok(), case, &out).class("malformed-tail");
+    if let ConnEnd::Panicked(p) = &out.end {
+        return v.fail_with(format!("panic in connection task: {p}"));
+    }
+    v = progress_checks(v, base, &out, true, case.disc_ms);
+    if v.is_fail() {
+        return v;
+    }
+    let mut is_head: Vec<bool> = base.reqs.iter().map(|r| r.is_head()).collect();
+    is_head.push(false);
+    let parsed = httpwire::parse_responses(&out.out, &is_head, out.closed());
+    if let Some(e) = &parsed.error {
+        return v.fail_with(format!("response stream is not a sequence of self-delimited messages: {e}"));
+    }
+    for i in 0..n {
+        let e = c02::expected_for(base, i, &base.reqs[i].body());
+        if e.must_terminate || e.may_complete {
+            return v.class("terminating-body-before-tail");
+        }
+        let Some(r) = parsed.responses.get(i) else {
+            return v.fail_with(format!(
+                "response {i} of {n} is missing: the valid requests were completely received before the malformed head (connection end {:?}, {} bytes written)",
+                out.end,
+                out.out.len()
+            ));
+        };
+        if !r.complete {
+            return v.fail_with(format!("response {i} of {n} was cut short ({} bytes written, connection end {:?}) although its request preceded the malformed head", out.out.len(), out.end));
+        }
+        if let Err(msg) = c02::check_response(i, &base.reqs[i], &e, r, out.closed()) {
+            return v.fail_with(format!("(malformed tail) {msg}"));
+        }
+        if r.announces_close() {
+            return v.class("closing-response-before-tail");
+        }
+    }
+    match parsed.responses.get(n) {
+        None => v.fail_with(format!("no error response to the malformed head was written (connection end {:?})", out.end)),
+        Some(r) if !r.complete => v.fail_with(format!("the error response to the malformed head was cut short (status {}, connection end {:?})", r.status, out.end)),
+        Some(r) if !(400..500).contains(&r.status) => v.fail_with(format!("malformed head answered with status {}", r.status)),
+        Some(_) => v.nt(true),
+    }
+}
+
 fn c02_known(cfg: &RunCfg, base: &c02::Case, i: usize) -> bool {
     c02::pair_known(cfg, &base.reqs[i], &base.progs[i]).is_some()
 }
@@ -401,6 +573,7 @@ pub fn run(cfg: &RunCfg) -> Report {
     let mut rep = Report::new("C04");
     rep.level = "fault_enumeration";
     rep.rule = "cases = C02 pipeline (1-5 requests, bodies up to 200 KB, handler/body programs with delays, self-wake Pending patterns, slow/partial/dropping body consumers, echo) x adversarial socket (initial credit 0..5000, closed-loop credit drip refilled only after a refused write with delay 0..50 ms and 1..40000 bytes, per-call write caps 1..100000, poll_flush blocked for 0..20 ms every 1-3 calls) x read segmentation with Pending x fault (none / prefix then half-close / prefix then reset / reset after all input); \
+                phase uploads: last request = chunked upload of 170-420 KB held / partly read / dropped by its handler for 0-120 ms; phase malformed-tail: valid pipeline + one of 6 malformed heads in the same segment (every valid response and a complete 4xx are owed); \
                 non-trivial = at least one partial write and one refused write and one read that returned Pending with more input to come, or request-body back-pressure engaged (body > 32 KiB with a slow or partial consumer); distinct by hash of the case"
         .into();
     rep.assumptions = vec![
@@ -413,6 +586,8 @@ pub fn run(cfg: &RunCfg) -> Report {
     runner::replay_regress(&mut rep, cfg, &replay);
     explore(&mut rep, cfg, "schedules", cfg.cases(150_000, 3_000_000), || case_strategy(false), |c| run_case(cfg, c));
     explore(&mut rep, cfg, "faults", cfg.cases(100_000, 2_000_000), || case_strategy(true), |c| run_case(cfg, c));
+    explore(&mut rep, cfg, "uploads", cfg.cases(4_000, 60_000), upload_case_strategy, |c| run_case(cfg, c).class("big-upload-held"));
+    explore(&mut rep, cfg, "malformed-tail", cfg.cases(40_000, 800_000), garbage_case_strategy, |c| run_case(cfg, c));
     rep
 }
 
